@@ -841,6 +841,14 @@ func (w *c11World) exec(op c11Op) (line string) {
 			revs = append(revs, c11ErrClass(cs.Revoke(ctx, ssi.MustParseURI("did:web:example.com#"+e.StatusListIndex), *e)))
 		}
 		return fmt.Sprintf("rebase entries=[%s] revokes=[%s]", strings.Join(lines, " ; "), strings.Join(revs, " "))
+	case "url":
+		// statusListURL under an arbitrary base URL (Raw), issuer, page
+		id, err := did.ParseDID(op.Issuer)
+		if err != nil {
+			return "url err:did"
+		}
+		cs := &StatusList2021{baseURL: op.Raw}
+		return "url " + cs.statusListURL(*id, op.Page)
 	case "wire":
 		e := StatusList2021Entry{ID: op.ID, Type: op.Type, StatusPurpose: op.Purpose, StatusListIndex: op.Idx, StatusListCredential: op.Raw}
 		at := "err"
@@ -1516,6 +1524,15 @@ func TestVerifC11(t *testing.T) {
 	}
 	for i := 0; i < 40; i++ {
 		run(c11BitsOp(rng))
+	}
+	// statusListURL rendering: every base the harness uses x issuers (incl. a did:web with an escaped port) x pages
+	urlIssuers := append(append([]string{}, c11Issuers...), "did:web:localhost%3A8080:iam:x", "did:web:example.com:iam:alice:1", "did:nuts:AAAAAAAAAAAAAAAAAAAAAAAAAAAAAAAAAAAAAAAAAAAA", "did:web:a")
+	for _, b := range append(append([]string{}, c11Bases...), c11AltBases...) {
+		for _, is := range urlIssuers {
+			for _, pg := range []int{0, 1, 2, 9, 10, 11, 12, 99, 100, 1 + rng.Intn(100000)} {
+				run(c11Op{Op: "url", Raw: b, Issuer: is, Page: pg})
+			}
+		}
 	}
 	// wire layer: every hostile index string on an otherwise valid entry, then random entries
 	for k := range c11IdxStrings {
